@@ -782,7 +782,7 @@ func run(c *core.Ctx) {
 	if len(f.Notes) > 0 {
 		c.Note("factory_notes", f.Notes)
 	}
-	runs := c.N(60, 2000)
+	runs := c.N(60, 1500)
 	for i := 0; i < runs; i++ {
 		cfg := genCfg(c, f, i, c.Rand("run", i))
 		c.Journal("C42 run %d n=%d dw=%d vw=%d subs=%d buf=%d maxp=%d profile=%s stopAt=%d", i, cfg.N, cfg.DecodeW, cfg.ValidateW, cfg.Submitters, cfg.Buf, cfg.MaxPending, cfg.Profile, cfg.StopAt)
